@@ -601,6 +601,14 @@ func runCore(seed uint64, n int, out *Out) {
 					end = uint64(now + r.Range(-5, 40))
 				}
 				status := int(r.Pick([]int64{1, 1, 1, 1, 1, 1, 1, 1, 1, 2, 2, 5}))
+				if r.Chance(20) {
+					// an update that keeps the stored times exactly (only the status moves), with every status value
+					if sm, ok := e.App.MarketKeeper.GetMarket(e.Ctx, m.uid); ok {
+						start, end = sm.StartTS, sm.EndTS
+						status = int(r.Pick([]int64{1, 2, 2, 0, 3, 4, 5, 5}))
+						out.Count("op.marketUpdate.keeps-times")
+					}
+				}
 				key, valid := signKey()
 				tk := e.Ticket(key, map[string]interface{}{"uid": m.uid, "start_ts": start, "end_ts": end, "status": status})
 				out.Op("MU %d %d %d %d %d", b2i(valid), m.n, start, end, status)
@@ -836,8 +844,23 @@ func runCore(seed uint64, n int, out *Out) {
 				m := pickMarket()
 				creator := 6 + r.Intn(5)
 				bn := nextBet
-				if r.Chance(4) && nextBet > 1 {
+				if r.Chance(5) && nextBet > 1 {
 					bn = 1 + r.Intn(nextBet-1) // replayed uid
+					if r.Chance(60) {
+						// the uid of a bet that is already settled (won, lost or refunded), replayed by its own bettor
+						bets, _ := e.App.BetKeeper.GetBets(e.Ctx)
+						var done []bettypes.Bet
+						for _, b := range bets {
+							if b.Status == bettypes.Bet_STATUS_SETTLED {
+								done = append(done, b)
+							}
+						}
+						if len(done) > 0 {
+							b := done[r.Intn(len(done))]
+							bn, creator = int(uidN(b.UID)), ix.A(b.Creator)
+							out.Count("op.wager.replays-settled-uid")
+						}
+					}
 				}
 				sel := m.odds[r.Intn(len(m.odds))]
 				if r.Chance(3) {
